@@ -431,6 +431,9 @@ def oracle(ctx, kernel, meta):
 
     def hook(a, op, trace):
         pass
+    f = _copy_along(ca, meta)
+    if f:
+        return f
     trace, _ = ops.run_impl(ca, meta)
     if isinstance(trace, core.Err):
         return None
@@ -469,6 +472,38 @@ def oracle(ctx, kernel, meta):
                 continue
             return {"what": f"{k}: entry {i} ({line!r}) lost its identifier (not split)"}
         prev = obs
+    return None
+
+
+def _copy_along(ca, meta, report_known=False):
+    """in every state a history reaches, copy() and Acl(**data()) give the same text and the same data (the numbers
+    of blocks included)"""
+    try:
+        a = ops.build(ca, meta)
+    except Exception:  # noqa
+        return None
+    for i, op in enumerate(meta["ops"]):
+        try:
+            a = ops.apply_op(ca, a, op)
+        except Exception:  # noqa
+            return None
+        try:
+            want_line, want = a.line, _strip(a.data())
+            for how, c in (("copy()", a.copy()), ("Acl(**data())", ca.Acl(**a.data()))):
+                if c.line != want_line:
+                    return {"what": f"after step {i} {op}: {how} has text {c.line!r}, the source {want_line!r}"}
+                if _strip(c.data()) != want:
+                    # listed finding N15: a block without heading that no longer stands first is merged into the
+                    # block before it when the ACL is rebuilt (same text, fewer blocks)
+                    moved = (len(c.items) < len(a.items) and any(
+                        it.__class__.__name__ == "AceGroup" and it.items and it.items[0].__class__.__name__ != "Remark"
+                        for it in list(a.items)[1:]))
+                    if moved and not report_known:
+                        continue        # N15 is reported from its witness by known_lines(); look further
+                    return {"what": f"after step {i} {op}: {how} has different data: {_diff(want, _strip(c.data()))}",
+                            "headingless_block_moved": bool(moved), "step": i}
+        except Exception:  # noqa
+            return None
     return None
 
 
@@ -517,6 +552,11 @@ def _n1_objects(ca):
     return out
 
 
+N15_WITNESS = {"platform": "ios", "port_nr": False, "protocol_nr": False, "k": "history",
+               "body": ["permit icmp any any", "remark = B1", "permit tcp any any eq 80"],
+               "ops": [["group", "= "], ["reverse"]]}
+
+
 def known_lines(ctx):
     ca = core.impl_module()
     out = []
@@ -529,6 +569,9 @@ def known_lines(ctx):
                 r = check_object(ca, name, make, text, "ios")
                 if r and matches_known(ctx, "K-copy", r["input"], r["failure"]):
                     hit = True
+        if f["id"] == "N15":
+            r = _copy_along(ca, N15_WITNESS, report_known=True)
+            hit = bool(r and matches_known(ctx, "K-ids", N15_WITNESS, r))
         if hit:
             out.append(f"{f['id']}: {f['what']}")
         else:
@@ -541,6 +584,8 @@ def matches_known(ctx, kernel, meta, failure):
     source reads '0.0.0.0 255.255.255.255' (same input as C06's N1).  Only text/data differences of that input."""
     import re
     w = failure.get("what", "")
+    if kernel == "K-ids" and failure.get("headingless_block_moved") and "different data: .items:" in w:
+        return "N15"
     if (kernel == "K-copy" and meta.get("class") in ("Address", "Ace") and meta.get("platform") == "ios"
             and re.search(r"(^|\s)\d+\.\d+\.\d+\.\d+/0(\s|$)", str(meta.get("text", "")))
             and meta.get("how") and meta.get("clause") in (None, "equal") and "mutation" not in meta
